@@ -179,6 +179,11 @@ type concCase struct {
 	Init    cstate        `json:"init"`
 	History []cop         `json:"history,omitempty"`
 	Report  string        `json:"report,omitempty"`
+	// realm mode (realms.go): the instance lives in a realm of a database shared with a sibling instance and foreign entries
+	Realm         string   `json:"realm,omitempty"`
+	Sibling       string   `json:"sibling,omitempty"`
+	SiblingActive bool     `json:"sibling_active,omitempty"`
+	RealmFindings []string `json:"realm_findings,omitempty"`
 
 	pmu      sync.Mutex
 	panicked []string // methods that panicked (a panicking call may leave the map's lock held for ever)
@@ -784,6 +789,14 @@ func finalOps(in inst, cc *concCase, client int) []cop {
 func runRandom(c *vf.Ctx, st *concStats, seed int64) {
 	cc, plans := genRandom(seed)
 	store := mapdb.NewMapDB()
+	cr, err := newConcRealm(cc, plans)
+	if err != nil {
+		c.Violation("conc/"+cc.Flavour+"/setup/error", "set-up of the shared database of a concurrent history failed: "+err.Error(), cc)
+		return
+	}
+	if cr != nil {
+		store = cr.store
+	}
 	in, st0, err := applySetup(cc, store, typeutils.ByteArray32ToBytes)
 	if err != nil {
 		c.Violation("conc/"+cc.Flavour+"/setup/error", "sequential set-up of a concurrent history failed: "+err.Error(), cc)
@@ -808,6 +821,20 @@ func runRandom(c *vf.Ctx, st *concStats, seed int64) {
 				}
 			}
 		}(plans[g])
+	}
+	if cr != nil {
+		cr.before = dbSnapshot(cr.db)
+		if cr.active {
+			wg.Add(1)
+			go func() {
+				defer wg.Done()
+				<-start
+				for _, s := range cr.script {
+					runtime.Gosched()
+					cr.sibOp(cc, s)
+				}
+			}()
+		}
 	}
 	close(start)
 	done := make(chan struct{})
@@ -845,6 +872,9 @@ func runRandom(c *vf.Ctx, st *concStats, seed int64) {
 	}
 	G := len(plans)
 	h = append(h, finalOps(in, cc, G)...)
+	if cr != nil {
+		cr.quiescent(cc)
+	}
 	h = append(h, reopenObserve(open(cc.Flavour, store), cc, G, cc.Family == "ow" && cc.Init.Committed))
 	// and once more after a last, sequential Commit: now the raw-key index and the size in the store belong to the
 	// committed contents too, so Size and Stream of the new instance are compared as well
@@ -855,6 +885,22 @@ func runRandom(c *vf.Ctx, st *concStats, seed int64) {
 		h = append(h, reopenObserve(open(cc.Flavour, store), cc, G, true))
 	}
 	sort.SliceStable(h, func(i, j int) bool { return h[i].Call < h[j].Call })
+	if cr != nil {
+		cr.end()
+		st.add("conc_histories_in_a_realm_of_a_shared_database", 1)
+		if cr.active {
+			st.add("conc_histories_with_concurrently_driven_sibling", 1)
+		}
+		cc.RealmFindings = cr.direct
+		seen := map[string]bool{}
+		for _, d := range cr.direct {
+			if !seen[d] {
+				seen[d] = true
+				cc.History = h
+				c.Violation("conc/"+cc.Flavour+"/"+d, fmt.Sprintf("concurrent history (seed %d) on realm %s of a database shared with a sibling instance (realm %s, %s) and foreign entries: %s", seed, cc.Realm, cc.Sibling, map[bool]string{true: "driven concurrently", false: "passive"}[cr.active], d), cc)
+			}
+		}
+	}
 	st.add("conc_histories", 1)
 	st.add("evaluations", len(h))
 	st.add("conc_histories:"+cc.Flavour+"/"+cc.Family, 1)
@@ -1440,6 +1486,8 @@ func concPart(c *vf.Ctx) {
 	c.Require("conc_histories_with_overlap:Commit||Set", (n+nr)/40*scale/4)
 	c.Require("conc_histories_with_overlap:Set||Stream", (n+nr)/40*scale/4)
 	c.Require("conc_interleaving_shapes", (n+nr)/4*scale/4)
+	c.Require("conc_histories_in_a_realm_of_a_shared_database", (n+nr)/4)
+	c.Require("conc_histories_with_concurrently_driven_sibling", (n+nr)/10)
 	c.Require("conc_stream_windows", nw*9/10)
 	c.Require("conc_commit_windows", nw)
 	c.Require("conc_commit_windows_reopened_copy", nw)
